@@ -180,6 +180,17 @@ class Heap:
         if k is not None and (kind, k) in self.known:
             return self.known[(kind, k)]
         arr = self.arr[kind] if not kind.startswith("fld:") else self.field_arr(kind[4:])
+        if k is not None:
+            # two fresh keys (allocation counter constant + offset) denote different objects unless they are the same
+            # term: under one constant the offsets differ; a later constant is at least the counter value at which the
+            # earlier one was abandoned.  Stores at other fresh keys are skipped when reading at this one.
+            while z3.is_store(arr):
+                k2 = fresh_key(arr.arg(1))
+                if k2 is None:
+                    break
+                if k2 == k:
+                    return arr.arg(2)
+                arr = arr.arg(0)
         return z3.Select(arr, ref)
 
     def _put(self, kind, ref, val):
